@@ -278,8 +278,33 @@ def run(ctx):
            "while not visited_mask.all()" in t and "np.argmin(visited_mask)" in t and "visited_mask[connected] = True" in t,
            "components are collected until every atom is visited", gm.lineno, nontrivial=False)
 
+    # the components are those of the *whole* bond graph: the bond list searched is the caller's, unfiltered
+    n_bg = 0
+    for q, callee in (("get_molecule_indices", "find_connected"), ("molecule_iter", "find_connected"), ("get_molecule_masks", "get_molecule_indices")):
+        f = mol.func(q)
+        par = param_names(f)[0]
+        for c in calls(f):
+            if call_name(c) != callee or not c.args:
+                continue
+            n_bg += 1
+            a0 = c.args[0]
+            ok = False
+            why = ast.unparse(a0)
+            if isinstance(a0, ast.Name):
+                defs = [st.value for st in stmts(f) if isinstance(st, ast.Assign) and any(isinstance(t, ast.Name) and t.id == a0.id for t in st.targets)]
+                other = [st for st in stmts(f) if isinstance(st, (ast.AugAssign, ast.AnnAssign)) and isinstance(st.target, ast.Name) and st.target.id == a0.id]
+                ok = (a0.id == par and not defs) or (bool(defs) and not other and all(ast.unparse(d) in (par, f"{par}.bonds") for d in defs))
+                why = f"{a0.id} = " + " | ".join(ast.unparse(d)[:60] for d in defs)
+            elif ast.unparse(a0) in (par, f"{par}.bonds"):
+                ok = True
+            ctx.ob("R3.whole-bond-graph", MOL, q, f"{callee}({ast.unparse(a0)}, ...)", ok,
+                   f"molecules are the connected components of the bond graph as given: the bond list searched must be the caller's "
+                   f"({par} or {par}.bonds), not a filtered or rebuilt one ({why})", c.lineno)
+    ctx.floor("R3.whole-bond-graph", n_bg, 3)
+
 
 MUTANTS = [
+    Mutant("molecules-ignore-coordination", MOL, "    molecule_indices = []\n    visited_mask = np.zeros(bonds.get_atom_count(), dtype=bool)", "    bonds = BondList(bonds.get_atom_count(), bonds.as_array()[bonds.as_array()[:, 2] != 7])\n    molecule_indices = []\n    visited_mask = np.zeros(bonds.get_atom_count(), dtype=bool)", "R3.whole-bond-graph"),
     Mutant("drop-ins-code", RES, "chain_id_changes | res_id_changes | ins_code_changes | res_name_changes", "chain_id_changes | res_id_changes | res_name_changes", "R1.residue-change-mask"),
     Mutant("chain-increment", CHA, "res_id_decrement = diff < 0", "res_id_decrement = diff > 0", "R1.chain-change-mask"),
     Mutant("wrapper-no-stop", CHA, "def get_chain_masks(array, indices):", "def get_chain_masks(array, indices, _x=None):", "R2.wrapper-params") if False else
